@@ -85,10 +85,36 @@ def c11_into(out, nv=2):
         obl.check_unsat(ex, "default-value:some-iff-present", list(r.pc) + [has if not some else z3.Not(has)], info="value presence")
         obl.check_unsat(ex, "default-value:into-iff-strlit-or-path", list(r.pc) + [want_into if not into else z3.Not(want_into)], info="Into table", keep_smt=True)
     e3.coverage_check(ex, obl, "HelperAttributeForDefault::value", res)
+    SAMPLE = {"Path": "K", "Call": "f()", "MethodCall": "x.f()", "Macro": "m!()", "Block": "{ 1 }", "Tuple": "(1, 2)", "Array": "[1]", "Binary": "1 + 2", "Unary": "-1", "Paren": "(1)",
+              "Reference": "&1", "Struct": "S { a: 1 }", "Index": "a[0]", "Field": "a.b", "Cast": "1 as u8", "Closure": "|| 1", "If": "if true { 1 } else { 2 }", "Match": "match 1 { _ => 1 }",
+              "Range": "0..1", "Repeat": "[0; 2]", "Unsafe": "unsafe { 1 }", "Const": "const { 1 }", "Loop": "loop { }", "Try": "a?", "Return": "return 1"}
+    LIT = {"Str": "\"s\"", "ByteStr": "b\"s\"", "Byte": "b'x'", "Char": "'c'", "Int": "1", "Float": "1.5", "Bool": "true", "CStr": "c\"s\""}
+    from . import replay_e3
+    seen = set()
     for label, m, info in obl.failed:
         kind = exprs[m.eval(d, model_completion=True).as_long()]
-        out.violation("into-table|%s" % kind, "-", "HelperAttributeForDefault::value: wrong %s decision for a default expression of kind Expr::%s (Lit kind %s)" % (
-            info, kind, lits[m.eval(l, model_completion=True).as_long()]))
+        lk = lits[m.eval(l, model_completion=True).as_long()]
+        text = LIT.get(lk) if kind == "Lit" else SAMPLE.get(kind)
+        what = "HelperAttributeForDefault::value: wrong %s decision for a default expression of kind Expr::%s (Lit kind %s)" % (info, kind, lk)
+        if (kind, lk if kind == "Lit" else "") in seen:
+            continue
+        seen.add((kind, lk if kind == "Lit" else ""))
+        if text is None or info != "Into table":
+            out.inconclusive.append("fn=HelperAttributeForDefault::value reason=%s; no native sample for this expression kind" % what)
+            continue
+        texts = [text] + (["a::K", "<T as Tr>::K", "Self::K", "K::<u8>"] if kind == "Path" else [])
+        hit = None
+        for tx in texts:
+            case = {"property": "C11", "kind": "matches", "mode": "attr", "attr": "Default", "item": "struct X { #[default(%s)] a: T }" % tx, "regex": r":: core :: convert :: Into",
+                    "expected": kind == "Path" or (kind == "Lit" and lk == "Str"), "where": "out", "explain": "only string literals and paths are converted with Into; " + what}
+            if replay_e3.disagrees(case, replay_e3.observe(case)):
+                hit = case
+                break
+        if hit:
+            path = e3.write_replay("C11", "into-%s-%s" % (kind, lk if kind == "Lit" else ""), hit)
+            out.violation("into-table|%s%s" % (kind, ":" + lk if kind == "Lit" else ""), path, "%s: #[derive_ex(Default)] %s" % (what, hit["item"]))
+        else:
+            out.inconclusive.append("fn=HelperAttributeForDefault::value reason=%s; not reproduced natively with %s" % (what, texts))
     obl.failed = []
     try:
         c11_enum_rules(out, obl, nv)
@@ -119,7 +145,7 @@ def c11_into(out, nv=2):
             out.violation("default-enum-rules|%s" % common.norm(item)[:80], path, "macro %s but the documentation says %s: #[derive_ex(Default)] %s" % (
                 "rejects" if obs["rejected"] else "accepts", "reject" if ref else "accept", item))
         else:
-            out.broken.append("UNCONFIRMED counterexample for the enum default-variant rules: %s" % item)
+            e3.not_reproduced(out, m, "for the enum default-variant rules: %s" % item)
     return obl
 
 
@@ -188,7 +214,7 @@ def c10_transparent(out):
             out.violation("transparent-rejection|%s" % "".join("t" if t else "-" for t in tv), path,
                           "#[derive_ex(Debug)] %s is %s" % (item, "accepted" if case["expected_reject"] else "refused"))
         else:
-            out.broken.append("UNCONFIRMED counterexample for build_debug_expr: %s" % item)
+            e3.not_reproduced(out, m, "for build_debug_expr: %s" % item)
     return obl
 
 
@@ -482,5 +508,5 @@ def entry_args_provenance(out, pid, n=2):
             out.violation("args-provenance|%s" % common.norm(" | ".join(lists))[:80], path,
                           "impl %s carries the bounds %s, its own arguments and list say %s: #[derive_ex(%s)] %s" % (bad[0], bad[1], bad[2], lists[0], item))
         else:
-            out.broken.append("UNCONFIRMED counterexample for %s: #[derive_ex(%s)] %s" % (label, lists[0], item))
+            e3.not_reproduced(out, model, "for %s: #[derive_ex(%s)] %s" % (label, lists[0], item))
     return obl
